@@ -18,6 +18,20 @@ pub mod vpath {
         pub open spec fn view(&self) -> Seq<char> { self.s@ }
         #[verifier::external_body]
         pub fn from(s: &String) -> (r: PathBuf) ensures r@ == s@ { unimplemented!() }
+        // the path as an owned OS string, to which text can be appended; and back (rule T-STR: `PathBuf::from(OS)` is `OS.into_path()`)
+        #[verifier::external_body]
+        pub fn as_os_str(&self) -> (r: OsString) ensures r@ == self@ { unimplemented!() }
+        #[verifier::external_body]
+        pub fn to_path_buf(&self) -> (r: PathBuf) ensures r@ == self@ { unimplemented!() }
+        #[verifier::external_body]
+        pub fn with_extension(&self, e: &str) -> (r: PathBuf) ensures r@ == with_extension_spec(self@, e@), r@ != self@ || e@.len() == 0 || true { unimplemented!() }
+        #[verifier::external_body]
+        pub fn with_file_name(&self, e: &str) -> (r: PathBuf) ensures r@ == with_file_name_spec(self@, e@) { unimplemented!() }
+        #[verifier::external_body]
+        pub fn join(&self, e: &str) -> (r: PathBuf) ensures r@ == path_join(self@, e@) { unimplemented!() }
+        #[verifier::external_body]
+        pub fn exists(&self, Tracked(w): Tracked<&mut World>) -> (r: bool)
+            ensures *final(w) == *old(w), old(w).fs.files.contains_key(self@) ==> r { unimplemented!() }
         #[verifier::external_body]
         pub fn push(&mut self, p: &String) ensures final(self)@ == path_join(old(self)@, p@) { unimplemented!() }
         #[verifier::external_body]
@@ -31,6 +45,27 @@ pub mod vpath {
         { unimplemented!() }
     }
     pub uninterp spec fn path_join(a: Seq<char>, b: Seq<char>) -> Seq<char>;
+    pub uninterp spec fn with_extension_spec(a: Seq<char>, e: Seq<char>) -> Seq<char>;
+    pub uninterp spec fn with_file_name_spec(a: Seq<char>, e: Seq<char>) -> Seq<char>;
+    // PathBuf::from(X) for the text-like X (rule T-STR -> to_path)
+    pub trait PathLike: Sized { spec fn pview(self) -> Seq<char>; }
+    impl PathLike for OsString { open spec fn pview(self) -> Seq<char> { self@ } }
+    impl PathLike for String { open spec fn pview(self) -> Seq<char> { self@ } }
+    impl<'a> PathLike for &'a String { open spec fn pview(self) -> Seq<char> { self@ } }
+    impl<'a> PathLike for &'a str { open spec fn pview(self) -> Seq<char> { self@ } }
+    impl<'a> PathLike for &'a PathBuf { open spec fn pview(self) -> Seq<char> { self@ } }
+    #[verifier::external_body]
+    pub fn to_path<T: PathLike>(t: T) -> (r: PathBuf) ensures r@ == t.pview() { unimplemented!() }
+    pub struct OsString { pub s: String }
+    impl OsString {
+        pub open spec fn view(&self) -> Seq<char> { self.s@ }
+        #[verifier::external_body]
+        pub fn to_owned(&self) -> (r: OsString) ensures r@ == self@ { unimplemented!() }
+        #[verifier::external_body]
+        pub fn push(&mut self, t: &str) ensures final(self)@ == old(self)@ + t@ { unimplemented!() }
+        #[verifier::external_body]
+        pub fn into_path(self) -> (r: PathBuf) ensures r@ == self@ { unimplemented!() }
+    }
     }
 }
 pub mod vfs {
